@@ -32,7 +32,7 @@ theorem Table.entry_mem {t : Table} {e : Nat} {en : Entry} (h : t.entry? e = som
   exact List.mem_of_getElem? h
 
 theorem Entry.complete_stored {en : Entry} (h : en.complete = true) (k : Nat)
-    (hk : k ∈ en.shape.stored) :
+    (hk : k ∈ en.held) :
     (en.traced.contains k = true ∧ (en.constNeeds = true ∨ en.disjuncts.contains k = true)) ∨
       en.isStaticAt k = true := by
   simp only [Entry.complete, Bool.and_eq_true, List.all_eq_true] at h
@@ -41,7 +41,7 @@ theorem Entry.complete_stored {en : Entry} (h : en.complete = true) (k : Nat)
   exact this.2
 
 theorem Entry.complete_guard {en : Entry} (h : en.complete = true) (g : List Nat)
-    (hg : g ∈ en.guards) (k : Nat) (hk : k ∈ en.shape.stored) :
+    (hg : g ∈ en.guards) (k : Nat) (hk : k ∈ en.held) :
     g.contains k = true ∨ en.isStaticAt k = true := by
   simp only [Entry.complete, Bool.and_eq_true, List.all_eq_true] at h
   have := h.1.2 g hg k hk
@@ -146,13 +146,86 @@ theorem core (t : Table) (hc : t.complete = true) (ty : Ty) :
         obtain ⟨hst, hlt, hty⟩ := helems j hj'
         exact (ih (pos j) (elem j) hty).2.2 (hs (pos j) (by simpa using hlt))
 
+/-- A `'static` type contains no arena pointer, whatever the table (no completeness needed). -/
+theorem static_no_ptrs (t : Table) (ty : Ty) :
+    ∀ v, HasType t v ty → isStatic t ty = true → ptrsOf v = [] := by
+  induction ty with
+  | gc => intro v _ hs; simp [isStatic] at hs
+  | gcWeak => intro v _ hs; simp [isStatic] at hs
+  | prim =>
+    intro v h _
+    cases v <;> simp [HasType] at h
+    simp [ptrsOf]
+  | app e args ih =>
+    intro v h hs
+    cases v with
+    | gc id => simp [HasType] at h
+    | weak id => simp [HasType] at h
+    | prim => simp [HasType] at h
+    | node len pos elem =>
+      simp only [HasType] at h
+      obtain ⟨en, hen, _, helems⟩ := h
+      simp only [isStatic, hen, List.all_eq_true] at hs
+      simp only [ptrsOf]
+      apply flatMap_nil'
+      intro j hj
+      have hj' : j < len := by simpa using hj
+      obtain ⟨_, hlt, hty⟩ := helems j hj'
+      exact ih (pos j) (elem j) hty (hs (pos j) (by simpa using hlt))
+
+theorem Entry.untraced_held {en : Entry} (h : en.untracedStatic = true) (k : Nat) (hk : k ∈ en.held)
+    (hnt : en.traced.contains k = false) : en.isStaticAt k = true := by
+  simp only [Entry.untracedStatic, Bool.and_eq_true, List.all_eq_true] at h
+  have := h.1.1 k hk
+  simp only [Bool.or_eq_true] at this
+  rcases this with h1 | h1
+  · rw [hnt] at h1; cases h1
+  · exact h1
+
+theorem Table.untraced_unpack {t : Table} (h : t.untracedStatic = true) {e : Nat} {en : Entry}
+    (he : t.entry? e = some en) : en.untracedStatic = true := by
+  simp only [Table.untracedStatic, List.all_eq_true] at h
+  exact h en (Table.entry_mem he)
+
+/-- Components a `trace` does not visit are `'static` and pointer-free (used by `Props/C16` and
+`Props/C12s`). -/
+theorem no_hidden_brand (t : Table) (hu : t.untracedStatic = true) (e : Nat) (en : Entry)
+    (he : t.entry? e = some en) (args : Nat → Ty) (len : Nat) (pos : Nat → Nat) (elem : Nat → Val)
+    (h : HasType t (.node len pos elem) (.app e args)) (j : Nat) (hj : j < len)
+    (hnt : en.traced.contains (pos j) = false) :
+    isStatic t (args (pos j)) = true ∧ ptrsOf (elem j) = [] := by
+  simp only [HasType] at h
+  obtain ⟨en', hen', hbounds, helems⟩ := h
+  rw [he] at hen'
+  cases hen'
+  obtain ⟨hheld, hlt, hty⟩ := helems j hj
+  have hs := Entry.untraced_held (Table.untraced_unpack hu he) (pos j) hheld hnt
+  have hst := hbounds (pos j) hs hlt
+  exact ⟨hst, static_no_ptrs t _ _ hty hst⟩
+
 /-! Small tables / types / values used by the non-vacuity examples of `Props/C16`. -/
 namespace Example
 
 def hm (disj traced : List Nat) : Entry :=
   { shape := .hashMap, text := "HashMap<K, V, S>", nparams := 3, constNeeds := false,
     disjuncts := disj, traced := traced, direct := [], guards := [], staticParams := [2],
-    selfStatic := false, ptrFields := [], tracedFields := [], gate := "" }
+    selfStatic := false, ptrFields := [], tracedFields := [], params := [], fieldParams := [],
+    freeLifetimes := [], gate := "" }
+
+/-- `unsafe impl<'gc, K, V, S> Collect<'gc> for HashMap<K, V, S> where K: Collect<'gc>,
+V: Collect<'gc>, S: 'static` as extracted, with its per-parameter roles. -/
+def hmCurrent : Entry :=
+  { hm [0, 1] [0, 1] with
+    params := [⟨"K", 0, .traced⟩, ⟨"V", 1, .traced⟩, ⟨"S", 2, .static⟩] }
+
+/-- The same impl with `S: 'gc`: the hasher state is neither traced nor `'static`. -/
+def hmMutant : Entry :=
+  { hm [0, 1] [0, 1] with
+    staticParams := [], params := [⟨"K", 0, .traced⟩, ⟨"V", 1, .traced⟩, ⟨"S", 2, .unbounded⟩] }
+
+/-- `HashMap<u8, u8, Hasher<'gc>>` whose hasher state holds a `Gc<'gc, _>` (object 5). -/
+def brandedHasher : Ty := .app 0 (fun k => if k = 2 then .gc else .prim)
+def hasherHolds : Val := .node 1 (fun _ => 2) (fun _ => .gc 5)
 
 def mini (e : Entry) : Table :=
   { entries := [e], gcLeaf := ⟨true, .traceGc⟩, weakLeaf := ⟨true, .traceGcWeak⟩,
